@@ -2086,6 +2086,16 @@ func genCase(r *hx.Rand) caseT {
 		if i > 0 && r.Chance(1, 6) {
 			// the same route under another method: operations of one path item, built one after the other
 			o.Path = c.Ops[r.Intn(i)].Path
+			if r.Chance(1, 3) {
+				// … or the same shape with other parameter names (`/users/:id`, `/users/:userId`): two path items
+				parts := strings.Split(o.Path, "/")
+				for k, part := range parts {
+					if strings.HasPrefix(part, ":") && len(part) > 1 {
+						parts[k] = ":" + hx.Pick(r, params) + strconv.Itoa(k)
+					}
+				}
+				o.Path = strings.Join(parts, "/")
+			}
 		}
 		c.Ops = append(c.Ops, o)
 	}
